@@ -178,10 +178,11 @@ PROPS.update({
         assumptions=["derivability is computed without memoized results", "domain bound: fewer than (2^63-1)/20 graph vertices"]),
     "C08": dict(layer=RES,
         streams=[S("redefstrict", "run_prop2 CFull 8", 500, 16000), S("redefine", "run_checks_r (check_scn CFull)", 250, 6000),
-                 S("redefstrict", "run_prop2 CPanic 8", 200, 4000, variant="nat")],
+                 S("redefstrict", "run_prop2 CPanic 8", 200, 4000, variant="nat"),
+                 S("redefname", "run_checks_r (check_scn CFull)", 250, 6000), S("redefnamestrict", "run_prop2 CFull 8", 300, 8000)],
         witness=[W("TestD7", "D7"), W("TestD8", "D8")],
         nontrivial_rule="history with at least one execution",
-        explanation="Theorems C08 / C08_unbounded (proofs/C08Redefine*.v): Redefine fails with the output-filter error exactly when an output is rejected; when it succeeds every input of the redefined function passes the input filter (bound: fewer than (2^63-1)/20 vertices) and none is keyed like a supplied value. Theorem C08_succeeds (proofs/C08Succeeds*.v): on the domain, for every tape, Redefine returns a function whenever no output is rejected and every target parameter passes the input filter (only other outcome: the error of a failing converter generator). Theorem C08_callable (proofs/C08Callable*.v, 10 files): when Redefine succeeds with inputs ins, the original Call with the Redefine options plus one value per declared input -- the body of the redefined function -- never fails for lack of an argument, for every tape, behaviour and choice of values (result or converter error only). Theorems C08_filter_or / C08_filter_and (proofs/FilterLaws.v): what 'permitted' means for FilterOr / FilterAnd lists of any length and nesting. C08_nonvacuous: a scenario recorded from the Go library meets every premise. Only the hand-over from the synthesised struct function to that inner Call is left to the correspondence (callredef operations). Correspondence: Redefine's declared inputs as a set, then the call of the redefined function (outer resolution of the synthesised struct function and inner original Call) against the model, on the property's domain (stream redefstrict) and beyond (stream redefine: subtypes, interfaces, multi-input converters, generated converters).",
+        explanation="Theorems C08 / C08_unbounded (proofs/C08Redefine*.v): Redefine fails with the output-filter error exactly when an output is rejected; when it succeeds every input of the redefined function passes the input filter (bound: fewer than (2^63-1)/20 vertices) and none is keyed like a supplied value. Theorem C08_succeeds (proofs/C08Succeeds*.v): on the domain, for every tape, Redefine returns a function whenever no output is rejected and every target parameter passes the input filter (only other outcome: the error of a failing converter generator). Theorem C08_callable (proofs/C08Callable*.v, 10 files): when Redefine succeeds with inputs ins, the original Call with the Redefine options plus one value per declared input -- the body of the redefined function -- never fails for lack of an argument, for every tape, behaviour and choice of values (result or converter error only). Filters are modelled over whole values (name, type, subtype: FltType, FltName, FltSub, FltOr, FltAnd; flt_okv), so the theorems cover caller-written filters that test Value.Name or Value.Subtype. Theorems C08_filter_or / C08_filter_and (proofs/FilterLaws.v): what 'permitted' means for FilterOr / FilterAnd lists of any length and nesting. C08_nonvacuous: a scenario recorded from the Go library meets every premise. Only the hand-over from the synthesised struct function to that inner Call is left to the correspondence (callredef operations). Correspondence: Redefine's declared inputs as a set, then the call of the redefined function (outer resolution of the synthesised struct function and inner original Call) against the model, on the property's domain (stream redefstrict) and beyond (stream redefine: subtypes, interfaces, multi-input converters, generated converters); streams redefname / redefnamestrict: the same with name- and subtype-sensitive filters.",
         assumptions=["the synthesised outer function of Redefine (reflect.StructOf wrapper) is exercised by the correspondence, its inner Call is what C08_callable covers"]),
 })
 
